@@ -119,3 +119,41 @@ Proof.
   - apply Z.eqb_eq in E. apply zlen_zero in E. contradiction.
   - eexists; split; [reflexivity|]. cbn [resolve]. rewrite drop_0. apply take_all. lia.
 Qed.
+
+Lemma zlen_concat_full mtu (l : list (list Z)) : Forall (fun x => zlen x = mtu) l -> zlen (concat l) = zlen l * mtu.
+Proof.
+  induction l as [|a l IH]; intros H; [reflexivity|].
+  apply Forall_cons_iff in H as [Ha Hl]. cbn [concat]. rewrite zlen_app, (IH Hl), Ha.
+  unfold zlen. cbn [length]. lia.
+Qed.
+
+(* the number of fragments: one for an empty input, ceil(len / mtu) otherwise - no empty fragment
+   appended at exact multiples of the MTU, none lost *)
+Theorem g711_count : forall mtu p, 1 <= mtu ->
+  exists fs, g711_payload mtu (Some p) = Ok (map Own fs) /\
+    zlen fs = if zlen p =? 0 then 1 else (zlen p + mtu - 1) / mtu.
+Proof.
+  intros mtu p Hm. unfold g711_payload. destruct (mtu =? 0) eqn:E; [lia|].
+  destruct (g711_loop_spec (S (length p)) mtu p [] Hm ltac:(lia))
+    as (fs & Hrun & Hcat & init & l & Hfs & Hinit & Hl & Hne).
+  exists fs. split; [exact Hrun|].
+  assert (Hlen : zlen p = zlen init * mtu + zlen l).
+  { rewrite <- Hcat, Hfs, concat_app, zlen_app, (zlen_concat_full mtu init Hinit). cbn [concat]. rewrite app_nil_r. reflexivity. }
+  assert (Hc : zlen fs = zlen init + 1) by (rewrite Hfs, zlen_app; reflexivity).
+  pose proof (zlen_nonneg init) as Hi. pose proof (zlen_nonneg l) as Hl0.
+  destruct (zlen p =? 0) eqn:Ez.
+  - assert (zlen init = 0) by nia. lia.
+  - assert (Hpne : p <> []) by (intros ->; cbn in Ez; discriminate).
+    assert (Hlne : 1 <= zlen l). { specialize (Hne Hpne). destruct l; [congruence|]. unfold zlen. cbn [length]. lia. }
+    rewrite Hc, Hlen. symmetry.
+    replace (zlen init * mtu + zlen l + mtu - 1) with ((zlen l - 1) + (zlen init + 1) * mtu) by lia.
+    rewrite Z.div_add by lia. rewrite Z.div_small by lia. lia.
+Qed.
+
+(* payloader then depacketizer: the single Opus fragment, whatever the MTU, unmarshals to the input *)
+Theorem opus_end_to_end : forall mtu p, p <> [] ->
+  exists f r, opus_payload mtu (Some p) = Ok [Own f] /\ opus_unmarshal (Some f) = Ok r /\ resolve (fun _ => f) r = p.
+Proof.
+  intros mtu p Hp. destruct (opus_unmarshal_spec p) as [H _]. destruct (H Hp) as (r & Hr & Hres).
+  exists p, r. split; [apply opus_payload_spec|]. split; assumption.
+Qed.
